@@ -138,6 +138,8 @@ def make_stream(rng, n, base_s, start_s, faults, scale=100.0, regimes=None, regi
       dup:     {"p": prob per candle that a second candle with the same timestamp follows}
       jitter:  {"p": prob per candle that its timestamp is moved off the grid (kept monotone)}
       offset:  seconds added to every timestamp (first candle on / off a bucket edge)
+      halt_to_window: {"p", "lifespan_s", "interval_s", "kmin", "kmax", "after"} outage of
+               (lifespan - k*interval): leaves about k predecessors inside a lifespan window
     """
     fired = Counter()
     ex = Exchange(rng, base_s, start_s, scale, regimes, regime_len, float_volume, first_regime)
@@ -146,6 +148,7 @@ def make_stream(rng, n, base_s, start_s, faults, scale=100.0, regimes=None, regi
     halt = faults.get("halt")
     dup = faults.get("dup")
     jitter = faults.get("jitter")
+    tight = faults.get("halt_to_window")
     offset = faults.get("offset", 0)
     if offset:
         fired["offgrid_offset"] += 1
@@ -178,6 +181,16 @@ def make_stream(rng, n, base_s, start_s, faults, scale=100.0, regimes=None, regi
             d[0] = row[0]
             rows.append(d)
             fired["dup"] += 1
+        if tight and len(rows) >= tight.get("after", 0) and rng.random() < tight["p"]:
+            # outage sized so that exactly k predecessors (+ the last candle before the outage) are
+            # still inside a lifespan window when trading resumes
+            k = rng.randint(tight["kmin"], tight["kmax"])
+            gap_s = tight["lifespan_s"] - k * tight["interval_s"]
+            skip = max(1, -(-gap_s // base_s)) - 1
+            if skip > 0:
+                ex.skip(skip)
+                fired["halt_to_window"] += 1
+                fired["halt_to_window_k=%d" % k] += 1
         if halt and rng.random() < halt["p"]:
             k = rng.randint(halt["min"], halt["max"])
             ex.skip(k)
